@@ -1,6 +1,6 @@
 //! C07 (verbatim regions), C12 (multi-line literal values), C15 (cursor tracking).
 use crate::cfg::Cfg;
-use crate::oracles::{self as o, verbatim_mask};
+use crate::oracles::{self as o, verbatim_mask, verbatim_mask_definite};
 use crate::oracles2::{ml_lit, split_lines};
 use crate::refscan::{self as r, Kind, TextKind};
 use crate::runner::{Ctx, Family};
@@ -22,18 +22,33 @@ pub fn c07(x: &str, prefix_len: Option<usize>, cfg: &Cfg, ctx: &mut Ctx) {
         ctx.fail("C07", "token-count", format!("{} tokens in, {} out; output {out:?}", tx.len(), to.len()), case());
         return;
     }
-    let mask = verbatim_mask(x, &tx);
-    let has_cond = tx.iter().any(|t| matches!(t.kind, Kind::Conditional(_)));
+    // tokens that are certainly verbatim: disabled regions and tokens lexed in asm mode. When a
+    // conditional directive outside asm code could switch the asm block itself on or off
+    // (`{$ifdef X} asm {$else} begin {$endif}`), R's asm mode is not the parser's: asm tokens are then
+    // not judged. Conditional directives *inside* an asm block leave no such doubt.
+    let mask = verbatim_mask_definite(x, &tx);
+    let cond_outside_asm = tx.iter().any(|t| matches!(t.kind, Kind::Conditional(_)) && !t.asm);
+    let cond_inside_asm = tx.iter().any(|t| matches!(t.kind, Kind::Conditional(_)) && t.asm);
+    let lone_cr = o::lone_cr_after_line_comment(x);
     let mut verbatim_tokens = 0;
     for i in 0..tx.len() {
         let (a, b) = (&tx[i], &to[i]);
         if mask[i] {
-            if has_cond && a.asm {
-                continue; // (superset mask, see verbatim_mask)
+            if cond_outside_asm && a.asm {
+                continue;
             }
             verbatim_tokens += 1;
             if a.lead(x) != b.lead(&out) || a.text(x) != b.text(&out) {
-                let what = if a.asm { "asm-line-changed" } else { "region-changed" };
+                let what = if lone_cr {
+                    // the reconstructor's last-resort line break after a line comment (the C08 finding)
+                    "region-changed:line-comment-ended-by-lone-cr"
+                } else if a.asm && cond_inside_asm {
+                    "asm-line-changed:conditional-directive-inside-asm-block"
+                } else if a.asm {
+                    "asm-line-changed"
+                } else {
+                    "region-changed"
+                };
                 ctx.fail(
                     "C07",
                     what,
